@@ -165,12 +165,12 @@ theorem app_listed_chunked_is_chunked (r : Req) (a : App) (hv : r.ver ≠ 0) (hc
   rw [respond_eq, payload_chunked r a hc hch]
 
 /-- apps that do not raise: `serveX` is `serve` -/
-theorem serveX_no_error (l : List (Req × App)) : serveX (l.map (fun x => (x.1, ⟨x.2, none⟩))) = serve l := by
+theorem serveX_no_error (l : List (Req × App)) : serveX (l.map (fun x => (x.1, ⟨x.2, none, false⟩))) = serve l := by
   induction l with
   | nil => rfl
   | cons x l ih =>
     obtain ⟨r, a⟩ := x
-    simp only [List.map_cons, serveX, serve, respondX, ih]
+    simp only [List.map_cons, serveX, serve, respondX, ih, Bool.false_eq_true, ↓reduceIte]
 
 /-- the Content-Length of an error response is ALWAYS the length of the rendered text, whatever headers the error carries
 (a `Content-Length` among them is overwritten) -/
@@ -243,13 +243,33 @@ theorem error_response_parses_back (r : Req) (e : Err) (tail : Bytes) (h : hasKe
 after the items it had yielded, with no return value -/
 theorem error_after_head_ends_response (r : Req) (a : App) (k : Nat) (e : Err)
     (h : ((a.pieces.take k).all (·.isEmpty)) = false) :
-    respondX r ⟨a, some (k, e)⟩ = respond r { a with pieces := a.pieces.take k, retval := [] } := by
+    respondX r ⟨a, some (k, e), false⟩ = respond r { a with pieces := a.pieces.take k, retval := [] } := by
   simp [respondX, h]
+
+/-- an application that raises when it is called gets no response and the server closes the connection, whatever the request
+said about persistence and however many requests are buffered behind it: none of them is answered (so a client can never
+mistake a later answer for the answer to the failed request) -/
+theorem crash_closes_and_answers_nothing_more (r : Req) (a : App) (rest : List (Req × AppX)) :
+    serveX ((r, ⟨a, none, true⟩) :: rest) = ⟨[], true, 1⟩ := by
+  simp [serveX]
+
+/-- in every history the connection ends closed iff some answered request was not persistent or its application crashed -/
+theorem serveX_closed_iff (l : List (Req × AppX)) :
+    (serveX l).closed = l.any (fun x => x.2.crash || !persisted x.1) := by
+  induction l with
+  | nil => rfl
+  | cons x l ih =>
+    obtain ⟨r, x⟩ := x
+    by_cases hc : x.crash = true
+    · simp [serveX, hc]
+    · by_cases hp : persisted r = true
+      · simp [serveX, hc, hp, ih]
+      · simp [serveX, hc, hp]
 
 set_option maxRecDepth 200000 in
 /-- non-vacuity / regression witness: an error that carries `Content-Length: 999` is answered with the length of its text -/
 theorem error_content_length_witness :
-    respondX ⟨1, none⟩ ⟨⟨lit "200 OK", [], none, [], []⟩, some (0, ⟨404, [], lit "T", lit "d", none, [(lit "Content-Length", lit "999")]⟩)⟩ =
+    respondX ⟨1, none⟩ ⟨⟨lit "200 OK", [], none, [], []⟩, some (0, ⟨404, [], lit "T", lit "d", none, [(lit "Content-Length", lit "999")]⟩), false⟩ =
       lit "HTTP/1.1 404 Not Found\r\nContent-Length: 18\r\nContent-Type: text/plain\r\nServer: Ioflo WSGI Server\r\nDate: Thu, 01 Jan 1970 00:00:00 GMT\r\n\r\n404 Not Found\nT\nd\n" := by
   decide +kernel
 
